@@ -49,6 +49,7 @@ struct Fault {
   bool touch = false;     // overwrite outputs with garbage before failing
   bool by_signal = false; // child killed by SIGINT/SIGTERM/SIGHUP itself -> ExitInterrupted
   bool bad_depfile = false; // the dying tool leaves a depfile that does not parse (a compiler killed half way)
+  bool trim_depfile = false; // ... or one that parses but names the target only (truncated before the first dependency)
 };
 
 struct Event {
